@@ -3626,6 +3626,52 @@ def _identity_function_stream(part) -> None:
                          {"model_b64": base64.b64encode(raw).decode(), "seq": ["InlinePass"], "kind": "identity-function"})
 
 
+_STD_NAMES = ("Add", "Mul", "Sub", "Equal", "Max", "Min", "And", "Or", "Xor", "Sum", "BitwiseAnd", "BitwiseOr", "BitwiseXor",
+              "MatMul", "Concat", "Where", "Identity")
+
+
+def _std_named_fn_models() -> list[tuple[str, bytes]]:
+    """a model-local function (domain "local", and a second copy in the domain "custom") that carries the NAME of a standard
+    operator but computes X - Y*Y, called twice on the same two values in swapped order (and once more in the first order):
+    only the identifier (domain, name, overload) may decide what a pass knows about an operator (seeded C05-r1: a CSE
+    key that sorts the operands of 'commutative' op types without looking at the domain merges F(a, b) with F(b, a))"""
+    vi = oh.make_tensor_value_info
+    out = []
+    for dom in ("local", "custom"):
+        imp = [oh.make_opsetid("", 18), oh.make_opsetid(dom, 1)]
+        for name in _STD_NAMES:
+            f = oh.make_function(dom, name, ["X", "Y"], ["Z"],
+                                 [oh.make_node("Mul", ["Y", "Y"], ["t"]), oh.make_node("Sub", ["X", "t"], ["Z"])], imp[:1])
+            call = lambda i, o: oh.make_node(name, i, o, domain=dom)  # noqa: E731
+            nodes = [call(["a", "b"], ["p"]), call(["b", "a"], ["q"]), call(["a", "b"], ["r"]),
+                     oh.make_node("Add", ["p", "r"], ["s"])]
+            try:
+                g = oh.make_graph(nodes, "g", [vi("a", _F, [3]), vi("b", _F, [3])], [vi("q", _F, [3]), vi("s", _F, [3])])
+                m = oh.make_model(g, opset_imports=imp, ir_version=10, functions=[f])
+                onnx.checker.check_model(m)
+                out.append((f"{dom}::{name}", m.SerializeToString()))
+            except Exception:  # noqa: BLE001 - a corner the checker rejects is not a case
+                pass
+    return out
+
+
+def _std_named_fn_stream(part) -> None:
+    seqs = [["CommonSubexpressionEliminationPass"], ["CommonSubexpressionEliminationPass", "RemoveUnusedNodesPass"],
+            ["IdentityEliminationPass", "CommonSubexpressionEliminationPass", "InlinePass"],
+            ["InlinePass", "CommonSubexpressionEliminationPass"]]
+    state: dict = {}
+    for tag, raw in _std_named_fn_models():
+        part.count("std_named_fn_models")
+        proto = _parse(raw)
+        try:
+            inputs = _default_inputs(proto)
+        except Exception:  # noqa: BLE001
+            part.count("std_named_fn_inputs_error:" + tag)
+            continue
+        for seq in seqs:
+            oracle(part, {"stream": "std-named-fn", "tag": tag, "sha1": _sha(raw), "seq": seq}, proto, seq, inputs, {}, state)
+
+
 def _fn_edge_stream(part) -> None:
     import onnx_ir as ir
 
@@ -3884,6 +3930,7 @@ def run(ctx: Ctx) -> None:
                    list(case["seq"]))
     _stochastic_twins_stream(part)
     _fn_edge_stream(part)
+    _std_named_fn_stream(part)
     _identity_function_stream(part)
     _defaults_edge_stream(part)
     corr_flush(part)
